@@ -479,9 +479,49 @@ where
             return self.read_single_run();
         }
 
-        // Multi-way merge
+        // Never keep more than `merge_ways` run files open at a time: while there are more
+        // runs than that, the oldest `merge_ways` of them are merged into one longer run on
+        // disk.  (Merging everything in a single pass opened every run file at once and
+        // failed with "Too many open files" once there were more runs than descriptors.)
+        let fan_in = self.config.merge_ways.max(2);
+        let mut intermediate_runs = 0usize;
+        while self.temp_files.len() > fan_in {
+            let group: Vec<TempRun> = self.temp_files.drain(..fan_in).collect();
+            let mut tree = self.loser_tree_over(&group)?;
+            tree.initialize()?;
+
+            let path = self.config.temp_dir.join(format!("{}_m{}.tmp", self.instance_id, intermediate_runs));
+            intermediate_runs += 1;
+            let file = File::create(&path)
+                .map_err(|e| ZiporaError::io_error(format!("Failed to create temp file: {}", e)))?;
+            let mut writer = BufWriter::new(file);
+            let mut items = 0usize;
+            while !tree.is_empty() {
+                if let Some(value) = tree.pop()? {
+                    self.write_element(&mut writer, &value)?;
+                    items += 1;
+                }
+            }
+            writer.flush()
+                .map_err(|e| ZiporaError::io_error(format!("Failed to flush temp file: {}", e)))?;
+            drop(writer);
+            drop(tree);
+            // `group` goes out of scope here: its run files are deleted
+            self.temp_files.push(TempRun::new(path, items));
+        }
+
+        // Final merge of at most `merge_ways` runs
+        let mut tournament_tree = self.loser_tree_over(&self.temp_files)?;
+        let result = tournament_tree.merge_to_vec()?;
+        self.stats.merge_passes = intermediate_runs + 1;
+
+        Ok(result)
+    }
+
+    /// A loser tree over the given runs (every run file is opened)
+    fn loser_tree_over(&self, runs: &[TempRun]) -> Result<EnhancedLoserTree<T, F>> {
         let tree_config = LoserTreeConfig {
-            initial_capacity: self.temp_files.len(),
+            initial_capacity: runs.len(),
             use_secure_memory: self.config.use_secure_memory,
             stable_sort: true,
             cache_optimized: true,
@@ -492,17 +532,13 @@ where
 
         let mut tournament_tree = EnhancedLoserTree::with_comparator(tree_config, self.comparator.clone());
 
-        // Add all runs to the tournament tree
-        for run in &self.temp_files {
+        for run in runs {
             let iter = run.iter::<T>()?
                 .filter_map(|result| result.ok()); // Skip errors instead of panicking
             tournament_tree.add_way(iter)?;
         }
 
-        let result = tournament_tree.merge_to_vec()?;
-        self.stats.merge_passes = 1;
-
-        Ok(result)
+        Ok(tournament_tree)
     }
 
     /// Read a single run back into memory
